@@ -30,6 +30,7 @@ def mk_conn(hw, budget, transpile, outcomes):
     DebugConnection.node_ids = {"app": 0, "Bob": 1}
     sock = EPRSocket("Bob")
     ex = NetExecutor("ctrl", outcomes=list(outcomes))
+    ex.responders = []          # one per EPR operation of the history, in program order; answers are produced when the request instruction runs
     ex.check_alloc = True       # gates and measurements on a virtual qubit that is not allocated fault, as on a real back end
     cfg = NVHardwareConfig(budget) if hw == "nv" else GenericHardwareConfig(budget)
     kw = {"compiler": NVSubroutineTranspiler} if transpile else {}
@@ -77,7 +78,8 @@ def _menu(live, limit):
 def fault_class(e):
     m = str(e)
     for key, name in (("is already allocated", "double_allocation"), ("is not allocated and cannot be freed", "free_unallocated"),
-                      ("outside the unit module", "outside_unit_module"), ("was not allocated", "gate_on_unallocated_qubit"), ("wait instruction blocks", "deadlock"),
+                      ("outside the unit module", "outside_unit_module"), ("not within the allocated unit module", "outside_unit_module"),
+                      ("list index out of range", "outside_unit_module"), ("was not allocated", "gate_on_unallocated_qubit"), ("wait instruction blocks", "deadlock"),
                       ("instructions executed", "diverged"), ("wait polls", "deadlock")):
         if key in m:
             return name
@@ -192,38 +194,35 @@ def make_body(spec, falsify=False):
                     n = op[1]
                     qs = getattr(sock, k)(number=n)
                     live += list(qs)
-                    for i in range(n):
-                        ex.deliveries.append(ok_k(ex, creator=(k == "create_keep"), purpose_id=0, remote_node_id=1,
-                                                  bell_state=(inp.int(f"bell{step}_{i}", 0, 3) if n == 1 and step < 2 else 0)))
+                    bells = [(inp.int(f"bell{step}_{i}", 0, 3) if n == 1 and step < 2 else 0) for i in range(n)]
+                    ex.responders.append(lambda t, n=n, c=(k == "create_keep"), bells=bells:
+                                         [ok_k(ex, creator=c, purpose_id=0, remote_node_id=1, bell_state=bells[i]) for i in range(n)])
                 elif k in ("recv_keep_fid", "create_keep_fid"):
                     # generation with a fidelity (= duration) limit: the request is repeated (at most twice here) while the reported
-                    # duration of the last pair is above the limit; the duration is symbolic, so both outcomes are explored
+                    # duration of the last pair is above the limit; the duration of the first try is symbolic, so both outcomes are explored
                     n = op[1]
                     creator = k == "create_keep_fid"
                     qs = getattr(sock, "create_keep" if creator else "recv_keep")(number=n, min_fidelity_all_at_end=80, max_tries=2)
                     live += list(qs)
-                    for attempt in range(2):
-                        for i in range(n):
-                            dur = inp.int(f"dur{step}_{attempt}_{i}", 0, 60000) if i == n - 1 and attempt == 0 else 0
-                            ex.deliveries.append(ok_k(ex, creator=creator, purpose_id=0, remote_node_id=1, goodness=dur, if_outstanding=attempt == 1))
+                    dur = inp.int(f"dur{step}", 0, 60000)
+                    ex.responders.append(lambda t, n=n, c=creator, dur=dur:
+                                         [ok_k(ex, creator=c, purpose_id=0, remote_node_id=1, goodness=(dur if (t == 0 and i == n - 1) else 0)) for i in range(n)])
                 elif k == "keep_seq":
                     sock.create_keep(number=op[1], sequential=True, post_routine=post)
-                    for i in range(op[1]):
-                        ex.deliveries.append(ok_k(ex, creator=True, purpose_id=0, remote_node_id=1))
+                    ex.responders.append(lambda t, n=op[1]: [ok_k(ex, creator=True, purpose_id=0, remote_node_id=1) for _ in range(n)])
                 elif k == "create_context":
                     with sock.create_context(number=op[1]) as (q, pair):
                         q.measure()
-                    for i in range(op[1]):
-                        ex.deliveries.append(ok_k(ex, creator=True, purpose_id=0, remote_node_id=1))
+                    ex.responders.append(lambda t, n=op[1]: [ok_k(ex, creator=True, purpose_id=0, remote_node_id=1) for _ in range(n)])
                 elif k == "recv_context_seq":
                     with sock.recv_context(number=op[1], sequential=True) as (q, pair):
                         q.measure()
-                    for i in range(op[1]):
-                        ex.deliveries.append(ok_k(ex, creator=False, purpose_id=0, remote_node_id=1, bell_state=0))
+                    ex.responders.append(lambda t, n=op[1]: [ok_k(ex, creator=False, purpose_id=0, remote_node_id=1, bell_state=0) for _ in range(n)])
             except (PathAbort, Infeasible):
                 raise
             except Exception as e:  # noqa
-                obs.append(Ob("sdk_builds_within_budget", False, dict(site0, family=family(hist), retry=retry_in(hist)),
+                obs.append(Ob("sdk_builds_within_budget", False, dict(site0, family=family(hist), retry=retry_in(hist), exc=type(e).__name__,
+                                                                      multi_pair_keep=any(h[0] in ("create_keep", "recv_keep", "recv_keep_fid", "create_keep_fid") and h[1] >= 2 for h in hist)),
                               info={"history": [list(h) for h in hist], "error": f"{type(e).__name__}: {str(e)[:200]}"}))
                 return obs
         obs += do_flush(depth)
